@@ -108,7 +108,17 @@ pub fn run_compile(e: &Expression, o: &RunOptions, paths: &[String]) -> Value {
             if let Ok(ms) = std::env::var("FPVERIF_RENDER_DELAY_MS") { if let Ok(ms) = ms.parse::<u64>() { std::thread::sleep(std::time::Duration::from_millis(ms)); } }
             let mut renders = vec![];
             let mut maps = vec![];
-            for p in paths {
+            for (pi, p) in paths.iter().enumerate() {
+                // (C20) let the clock move on between two renderings of ONE compiled expression that holds a time
+                // test -- a few times per process: what is rendered must not depend on when it is rendered
+                if pi == 1 {
+                    if let Some(ms) = std::env::var("FPVERIF_RENDER_GAP_MS").ok().and_then(|v| v.parse::<u64>().ok()) {
+                        static GAPS: AtomicU64 = AtomicU64::new(0);
+                        let tj = case["t"].to_string();
+                        let timed = ["\"amin\"", "\"atime\"", "\"cmin\"", "\"ctime\"", "\"mmin\"", "\"mtime\""].iter().any(|k| tj.contains(k));
+                        if timed && GAPS.fetch_add(1, Ordering::SeqCst) < 3 { std::thread::sleep(std::time::Duration::from_millis(ms)); }
+                    }
+                }
                 let r = guarded(&case, || c.scheme(p));
                 match r {
                     Ok(text) => renders.push(json!({"st":"ok","path":cps(p),"text":cps(&text)})),
